@@ -7,7 +7,7 @@ from .. import kernels as K
 from .. import guards, roles, rules
 from ..alg import I, INV4PI, Poly, V, cross, dot, vsum
 from ..core import AnalysisError
-from ..src import unparse
+from ..src import arg_names, unparse
 
 LEVEL = "other"
 TECHNIQUE = "symbolic differentiation of extracted kernel normal forms (PDE per kernel, Maxwell curl/div identities), potential kernels vs closed-form kernel sums, far-field closed form with complex wavenumber"
@@ -118,13 +118,47 @@ def maxwell_identities(ctx):
 
 
 def real_on_complex(ctx):
+    """PotentialAssembler.evaluate over the four worlds (operator real / complex) x (coefficients real / complex): every
+    return an execution can reach - a test the world does not decide (one that looks at the VALUES of x) is followed both
+    ways - denotes E x as a linear map, with x = Re + i Im, np.real(x) = Re, np.imag(x) = Im; for a real operator and
+    complex coefficients the implementation is only ever called on real arrays."""
+    from .. import dispatch
+    from ..proto import NC, NCEval
+
     rel = "bempp_cl/api/assembly/assembler.py"
     m = ctx.repo.mod(rel)
     fn = m.fn("PotentialAssembler.evaluate")
-    r = ctx.rule("POT-REAL-ON-COMPLEX", "a real potential operator applied to complex coefficients acts on real and imaginary parts: f(Re x) + 1j f(Im x)", 1)
-    defs = roles.Defs(fn)
-    rets = [roles.canon(s.value, defs).replace(" ", "") for s in ast.walk(fn) if isinstance(s, ast.Return)]
-    want_split = roles.canon_text("self._implementation.evaluate(np.real(x)) + 1j * self._implementation.evaluate(np.imag(x))").replace(" ", "")
-    plain = "self._implementation.evaluate(x)"
-    ok = want_split in rets and all(x in (want_split, plain) for x in rets)
-    r.check(ok, "PotentialAssembler.evaluate", rel, fn.name, fn.lineno, "potential evaluate returns %s" % sorted(set(rets)), "return expressions are %s" % sorted(set(rets)))
+    x = arg_names(fn)[1]
+    r = ctx.rule("POT-REAL-ON-COMPLEX", "PotentialAssembler.evaluate: in each of the four worlds (real / complex operator) x (real / complex coefficients) every reachable return is E(x) as a linear map; "
+                 "a real operator never receives a complex array (it acts on real and imaginary parts: E(Re x) + 1j E(Im x))", 4)
+    E, re, im, i_ = NC.op("E"), NC.op("Re"), NC.op("Im"), NC.scalar("i")
+    for opc in (False, True):
+        for xc in (False, True):
+            env = {"self._is_complex": opc}
+            for np_ in ("np", "_np", "numpy"):
+                env["%s.iscomplexobj(%s)" % (np_, x)] = xc
+                env["%s.isrealobj(%s)" % (np_, x)] = not xc
+            full = re + i_ * im if xc else re
+            leaves = {x: full}
+            for np_ in ("np.", "_np.", "numpy.", ""):
+                leaves["%sreal(%s)" % (np_, x)] = re
+                leaves["%simag(%s)" % (np_, x)] = im if xc else NC.const(0)
+            leaves["%s.real" % x] = re
+            leaves["%s.imag" % x] = im if xc else NC.const(0)
+            leaves["self._implementation"] = E
+            inst = "%s operator, %s coefficients" % ("complex" if opc else "real", "complex" if xc else "real")
+            rets = dispatch.reachable_returns(fn, env)
+            bad = []
+            for node in rets:
+                if node is None or isinstance(node, str):
+                    bad.append("a path %s" % ("raises" if node == "raise" else "returns nothing"))
+                    continue
+                node = roles.inline(node, roles.Defs(fn))
+                got = NCEval(dict(leaves), morphisms=("evaluate",)).ev(node)  # (unreadable expression: cannot analyse)
+                if got != E * full:
+                    bad.append("`%s` denotes %r, not %r" % (unparse(node)[:90], got, E * full))
+                if not opc and xc:
+                    for c in ast.walk(node):
+                        if isinstance(c, ast.Call) and isinstance(c.func, ast.Attribute) and c.func.attr == "evaluate" and any(isinstance(a, ast.Name) and a.id == x for a in c.args):
+                            bad.append("`%s` hands the complex array to the real implementation" % unparse(c)[:60])
+            r.check(bool(rets) and not bad, inst, rel, fn.name, fn.lineno, "potential evaluate, " + inst, "; ".join(bad) if bad else "no return")
